@@ -677,6 +677,13 @@ func (s *Server) read(ch receiver) {
 			s.stopLocked(err)
 			s.mu.Unlock()
 			return
+		} else if s.ch == nil {
+			// The server was stopped while this receive was in progress (the
+			// channel's Close need not unblock Recv). There is no channel to
+			// reply on and no dispatcher to run requests; discard and exit.
+			s.log("Discarding %d bytes received after stop", len(bits))
+			s.mu.Unlock()
+			return
 		} else if derr != nil { // parse failure; report and continue
 			s.pushErrorLocked(derr)
 		} else if len(in) == 0 {
